@@ -54,27 +54,47 @@ class parse_response(Contract):
 
 
 class Semaphore:
+    """asyncio.Semaphore(1) seen by one caller: entering may be granted, or the caller is cancelled while still queued
+    (CancelledError out of acquire, nothing taken); `log` records what this caller did to the permits"""
+
     def __init__(self):
         self.held = 0
         self.log = []
+        self.cancelled = False
+
+    def _acquire(self, it_, node, ret):
+        def thunk():
+            k = it_.run.choose([('granted', True), ('cancelled while queued', True)], 'semaphore')
+            if k != 'granted':
+                self.cancelled = True
+                raise PyExc(asyncio.CancelledError, ('cancelled while waiting for the semaphore',), getattr(node, 'lineno', None),
+                            it_.where())
+            self.held += 1
+            self.log.append('acquire')
+            return ret
+        return CoroVal(thunk, 'sem.acquire')
+
+    def _release(self):
+        self.held -= 1
+        self.log.append('release')
 
     def getattr_(self, it, name, node):
         if name == '__aenter__':
-            def f(it_):
-                def thunk():
-                    self.held += 1
-                    self.log.append('acquire')
-                    return None
-                return CoroVal(thunk, 'sem.acquire')
-            return _M(f)
+            return _M(lambda it_: self._acquire(it_, node, None))
+        if name == 'acquire':
+            return _M(lambda it_: self._acquire(it_, node, True))
         if name == '__aexit__':
             def f(it_, *a):
                 def thunk():
-                    self.held -= 1
-                    self.log.append('release')
+                    self._release()
                     return False
                 return CoroVal(thunk, 'sem.release')
             return _M(f)
+        if name == 'release':
+            def g(it_):
+                self._release()
+                return None
+            return _M(g)
         raise Unsupported(f'Semaphore.{name}')
 
 
@@ -159,8 +179,15 @@ _install()
 
 class _RegBase(Contract):
     props = ('C17',)
-    raises = {}
+    # nothing is raised - except that a caller cancelled while it is still queued for the semaphore sees its CancelledError
+    raises = {asyncio.CancelledError: lambda cx, self, name: cx.run.ghost['reg']['sem'].cancelled}
     command = 'register'
+
+    def xpost(c, cx, e, self, name):
+        g = cx.run.ghost['reg']
+        # one at a time, whatever happens to the callers: who never got the permit does not hand one out, and sends nothing
+        return {'a_caller_cancelled_while_queued_leaves_the_permits_alone': g['sem'].log == [] and g['sem'].held == 0,
+                'a_caller_cancelled_while_queued_sends_no_command': g['app'].calls == []}
 
     def setup(self, cx):
         run = cx.run
